@@ -33,3 +33,4 @@ def check(ctx):
     observables.lindbladian_structure(ctx)
     adapter.noise_source(ctx)
     drivers.phase_shortcut(ctx)
+    observables.sv_density_matrix_energy(ctx)
